@@ -261,22 +261,38 @@ Theorem C17_atomic_steps_justify_model :
 Proof. exact fine_grained_refines. Qed.
 Print Assumptions C17_atomic_steps_justify_model.
 
-(* 8c. ... instantiated with the structure translated from the CURRENT source: the trees conform to
-      [fswallet_prog] ([tcode_conforms]: for every listing and every outcome of the map lookups a path
-      of the translated body of notifyNewFiles / AddListener / GetAccounts with the same projected
-      trace is constructed), and [steps_atomic_ok fswallet_prog fuel] is theorem 3a.  So: every
-      fine-grained interleaving of the translated methods has the same outcome as a run of the
-      Notify model.
+(* 8c. The threads of 8b follow the structure translated from the CURRENT source.  Their complete event
+      sequences are the words of three patterns — notifyNewFiles: Lock (eps | Mr | Mr Mw | Mr Mw Ar Aw)*
+      Lr Unlock (M/A/L = addressToFileMap / addressList / listeners, r/w = read / write; one starred
+      word per file: no address, known address and same file, known address and other file, new
+      address); AddListener: Lock Lr Lw Unlock; GetAccounts: Lock Ar Unlock — and the reflective path
+      finder of Conc/PathFind.v ([covers], sound by [covers_sound]; explores both branches of every
+      `if`, inlines calls, runs deferred items, matches the starred item against a loop) establishes by
+      vm_compute that the translated body of each method has, for EVERY word, a complete control-flow
+      path whose projection onto mux and the three fields is that word, up to accesses the source
+      makes in addition ([sub_acc]: e.g. len() and copy() both read listeners; every Lock / Unlock
+      must match).  Decided by computation, so that a behaviour-preserving refactor of
+      the source (explicit Unlock, early return before the Lock, loop moved into a helper) keeps it. *)
+Theorem C17_translated_paths_cover :
+  covers_ok fswallet_prog fuel = true /\
+  forall addr_of F c, tcode addr_of F c -> conforms fswallet_prog c.
+Proof.
+  split; [exact fswallet_covers|].
+  exact (fun addr_of => tcode_conforms addr_of fswallet_prog fuel fswallet_covers).
+Qed.
+Print Assumptions C17_translated_paths_cover.
+
+(* 8d. 3a + 8b + 8c: every fine-grained interleaving of the translated methods has the same outcome as
+      a run of the Notify model.
       What remains INFORMAL (see design/C17.md): (i) the DATA actions decorating the accesses
       (what is written, which branch follows which value read: [NotifyRefine.loop], [add_code],
       [get_code]) are transcribed by hand from the Go statements — the translator extracts only the
-      synchronisation structure; their event skeleton is proved to follow the translated structure,
-      their data is validated by the history replay like [Notify.scan]; (ii) the position of the `go`
-      inside the critical section and "Unlock only by the holder" are properties of the decoration
-      ([shape_ok]) — the path semantics gives `go` no event; Lockset's checker rejects an Unlock of
-      a mutex the goroutine does not hold (theorem 1); (iii) a thread performs ONE call; per-call
-      observations (the slice GetAccounts returns) are in the final thread state of 8a but are not
-      related to the Notify run here. *)
+      synchronisation structure; their event skeleton is proved to follow the translated structure
+      (8c), their data is validated by the history replay like [Notify.scan]; (ii) the position of the
+      `go` inside the critical section and "Unlock only by the holder" are properties of the
+      decoration ([shape_ok]) — the path semantics gives `go` no event; Lockset's checker rejects an
+      Unlock of a mutex the goroutine does not hold (theorem 1); (iii) a thread performs ONE call
+      (per-call observations: 8f). *)
 Theorem C17_fine_grained_refines_notify :
   forall addr_of ls thr sch sn,
     wallet_threads addr_of thr ->
@@ -284,10 +300,10 @@ Theorem C17_fine_grained_refines_notify :
     exists ops,
       run addr_of (init ls) ops = abs (c_p _ _ _ _ _ _ sn, c_e _ _ _ _ _ _ sn) /\
       (NoDup (pls (c_p _ _ _ _ _ _ sn)) -> valid_seq addr_of (init ls) ops).
-Proof. exact (fswallet_fine_grained_refines (proj1 C17_discovery_steps_atomic)). Qed.
+Proof. exact (translated_fine_grained_refines fswallet_prog fuel (proj1 C17_discovery_steps_atomic) (proj1 C17_translated_paths_cover)). Qed.
 Print Assumptions C17_fine_grained_refines_notify.
 
-(* 8d. ... hence exactly-once for the fine-grained system: at the end of ANY such execution (listener
+(* 8e. ... hence exactly-once for the fine-grained system: at the end of ANY such execution (listener
       channels distinct) the account list has no duplicates, no (listener, address) pair was
       delivered or is queued twice, only registered listeners receive and only listed addresses, the
       list holds only addresses of files present, and — when all sends have been performed — every
@@ -304,8 +320,26 @@ Theorem C17_fine_grained_exactly_once :
     incl (pl P) (file_addrs addr_of (ef E)) /\
     (flat_map n_remaining (en E) = [] ->
        forall l a, In l ls -> In a (pl P) -> count_occ pair_dec (elog E) (l, a) = 1).
-Proof. exact (fswallet_fine_grained_outcome (proj1 C17_discovery_steps_atomic)). Qed.
+Proof. exact (translated_fine_grained_outcome fswallet_prog fuel (proj1 C17_discovery_steps_atomic) (proj1 C17_translated_paths_cover)). Qed.
 Print Assumptions C17_fine_grained_exactly_once.
+
+(* 8f. ... and what each finished call observed (the "same per-thread observations" of 8a carried to
+      the model): in the final state a finished thread's observation is the one it started with (a
+      thread given as already finished), or empty (every call but GetAccounts), or — the slice a
+      GetAccounts call returned — the account list of the model after a PREFIX ops1 of the very run
+      ops that produces the final state. *)
+Theorem C17_fine_grained_observations :
+  forall addr_of ls thr sch sn,
+    wallet_threads addr_of thr ->
+    exec wcfg wstep (wallet_init ls thr) sch sn -> c_holder _ _ _ _ _ _ sn = None ->
+    exists ops,
+      run addr_of (init ls) ops = abs (c_p _ _ _ _ _ _ sn, c_e _ _ _ _ _ _ sn) /\
+      (NoDup (pls (c_p _ _ _ _ _ _ sn)) -> valid_seq addr_of (init ls) ops) /\
+      forall u o, nth_error (c_thr _ _ _ _ _ _ sn) u = Some (Done o) ->
+        nth_error thr u = Some (Done o) \/ o = [] \/
+        exists ops1 ops2, ops = ops1 ++ ops2 /\ o = addrList (run addr_of (init ls) ops1).
+Proof. exact (translated_fine_grained_observations fswallet_prog fuel (proj1 C17_discovery_steps_atomic) (proj1 C17_translated_paths_cover)). Qed.
+Print Assumptions C17_fine_grained_observations.
 
 (* ---- non-vacuity ---- *)
 
@@ -371,7 +405,7 @@ Proof.
 Qed.
 
 (* a fine-grained execution that is NOT serial (a file appears between AddListener's read and write
-   of listeners) exists, meets the hypotheses of 8c/8d, and ends with the listener registered *)
+   of listeners) exists, meets the hypotheses of 8d/8e, and ends with the listener registered *)
 Example C17_fine_grained_nonvacuous :
   forall addr_of,
     wallet_threads addr_of ex_thr /\
